@@ -668,7 +668,7 @@ def gen(ctx, emit):
                         emit("keysign_der %s %s %s" % (tok, bad, h0), "key-der")                # constructor errors, as coded
                     for hh in (_h32(0), "-", "00" + h0, "ff" * 33, "01"):                       # hashes outside the quantifier, as coded
                         emit("keysign_der %s %s %s" % (tok, kd, hh), "key-der")
-                muts = _der_mutations(rng, r, s, n, 3 if ctx.thorough else 1)
+                muts = _der_mutations(rng, r, s, n, 3 if ctx.thorough else 2)
                 if not (full and k1):
                     muts = muts[:1] + muts[(1 if full else 2)::4]
                 for m in muts:
@@ -679,7 +679,7 @@ def gen(ctx, emit):
                     if k1:
                         kks += ["sec:" + sec_c, "pair:%d,%d:1" % (qx, p - qy), "pair:%d,%d:1" % (qx + p, qy)]
                         hhs += [_h32(z0 + n) if z0 + n < two256 else h0, h0[2:], "ff" * 40]
-                    if ctx.thorough:
+                    if ctx.thorough or k1:
                         kks += ["sec:" + sec_u, kd]
                         hhs += ["00" + h0]
                     for kk in kks:
@@ -691,8 +691,7 @@ def gen(ctx, emit):
                     emit("keyhist %s %s l:%s,s:%s,l:%s,s:%s,l:%s,p,l:%s,s:%s,c,l:%s,v:%s:%s,v:%s:%s00,v:%s:-" % (
                         tok, kd, hA, hA, hA, hB, hA, hB, hA, hB, hA, good, hA, good, hA), "key-history")
                     emit("keyhist %s %s v:%s:%s,s:%s,p,c,v:%s:%s" % (tok, kq, hA, good, hA, hB, good), "key-history")
-                    if ctx.thorough:
-                        emit("keyhist %s sec:%s v:%s:%s,c,p,v:%s:%s,s:%s" % (tok, sec_u, hA, good, hB, good, hA), "key-history")
+                    emit("keyhist %s sec:%s v:%s:%s,c,p,v:%s:%s,s:%s" % (tok, sec_u, hA, good, hB, good, hA), "key-history")
                 else:
                     emit("keyhist %s d:%d:0 s:%s,c,l:%s,p,l:%s,s:%s" % (tok, n - 1, hB, hB, hA, hB), "key-history")
                 # ECDSA's second hash (C01_second_hash_verifies): (r, s) verifies for z' = -z - 2rd too - what the equation says
